@@ -12,6 +12,7 @@ import CvDriver.C16
 import CvDriver.C14
 import CvDriver.C01
 import CvDriver.C06b
+import CvDriver.C19b
 open Drv
 
 structure DState where
@@ -24,10 +25,11 @@ structure DState where
   shared : SharedSt := {}
   geom : GeomSt := {}
   ratchet : RatchetSt := {}
+  acf : AcfSt := {}
 
 def stepLine (s : DState) (ln : Nat) (line : String) : DState × List String :=
   let t := toks line
-  let s := { s with geom := geomObserve s.geom t, ratchet := ratchetObserve s.ratchet t }
+  let s := { s with geom := geomObserve s.geom t, ratchet := ratchetObserve s.ratchet t, acf := acfObserve s.acf t }
   match t with
   | [] => (s, [])
   | _ =>
@@ -35,6 +37,9 @@ def stepLine (s : DState) (ln : Nat) (line : String) : DState × List String :=
     | some o => (s, o)
     | none =>
     match c06b s.ratchet ln t with
+    | some o => (s, o)
+    | none =>
+    match c19b s.acf ln t with
     | some o => (s, o)
     | none =>
     match c18 ln t with
